@@ -769,10 +769,12 @@ func c12Generate(seed int64, scale int) [][]*c12Case {
 		}
 		// F9: configurations the code does not validate: Multiplier <= 0, negative intervals,
 		// negative MaxElapsedTime (rf = 0: the randomisation window would be inverted otherwise)
-		for i := 0; i < 10; i++ {
+		for i := 0; i < 12; i++ {
 			cfg := c12Cfg{MR: c12pick(rng, 2, 3, 4), Init: c12pick64(rng, 2, 5) * c12ms, MaxI: c12pick64(rng, 6, 10) * c12ms,
 				Mult: [2]int64{2, 1}, RF: [2]int64{0, 1}}
-			switch i % 5 {
+			switch i % 6 {
+			case 5: // RandomizationFactor > 1: negative draws do not delay
+				cfg.RF = [2]int64{c12pick64(rng, 3, 5), 2}
 			case 0:
 				cfg.Mult = [2]int64{c12pick64(rng, -2, -1, -3), c12pick64(rng, 1, 2)}
 			case 1:
